@@ -108,6 +108,10 @@ func (c *FnCtx) ghostIntrinsic(fr *Frame, st *State, fn *ssa.Function, args []*T
 		return []*Term{c.height(st, args[0])}, true
 	case "verifMapsSameExcept", "verifMapSameExceptKey", "verifMapSameExceptKeys", "verifOldHas", "verifOldGet", "verifOldLen":
 		return c.heapRelIntrinsic(st, fn.Name(), args), true
+	case "verifInfallibleWriter": // the writer is an in-memory buffer: Write never fails and accepts all bytes
+		return []*Term{ts.UF("infallibleWriter", SBool, args[0])}, true
+	case "verifIsByteReader":
+		return []*Term{c.implementsNamed(st, args[0], "io", "ByteReader")}, true
 	case "verifSameMap": // identity of two maps
 		return []*Term{ts.Eq(args[0], args[1])}, true
 	case "verifSameVal": // equality of two values (maps by identity)
@@ -304,6 +308,9 @@ func (c *FnCtx) model(fr *Frame, st *State, x *ssa.Call, name string, args []*Te
 		e := c.maybeErr(st, "write")
 		c.addFact(st, ts.And(ts.Le(ts.Int(0), n), ts.Le(n, ts.Len(args[1]))))
 		c.addFact(st, ts.Implies(ts.Lt(n, ts.Len(args[1])), ts.Not(tc.IsNilVal(e))))
+		// a *bytes.Buffer / *strings.Builder behind the interface never fails and takes everything
+		inf := ts.UF("infallibleWriter", SBool, args[0])
+		c.addFact(st, ts.Implies(inf, ts.And(tc.IsNilVal(e), ts.Eq(n, ts.Len(args[1])))))
 		old := c.gget(st, "G:wr", id)
 		c.gset(st, "G:wr", id, ts.Concat(old, ts.Extract(args[1], ts.Int(0), n)))
 		return []*Term{n, e}
@@ -462,7 +469,9 @@ func (c *FnCtx) model(fr *Frame, st *State, x *ssa.Call, name string, args []*Te
 		c.store(st, o, np)
 		return nil
 	case "encoding/xml.NewDecoder":
-		use("xml.NewDecoder(r): a decoder object at token position 0, element depth 0, reading from r")
+		use("xml.NewDecoder(r): a decoder object at token position 0, element depth 0, reading from r; it reads r byte by byte without read-ahead only if r is an io.ByteReader (otherwise it wraps r in a bufio.Reader)")
+		// C13: a reader that is not an io.ByteReader would be wrapped in a bufio.Reader, which reads ahead into the next document
+		c.addObl(st, "bytereader", fmt.Sprintf("#%d xml.NewDecoder", c.kindOrd["bytereader"]), c.implementsNamed(st, args[0], "io", "ByteReader"), x.Pos(), "the reader handed to xml.NewDecoder must be an io.ByteReader (no read-ahead)")
 		o := c.allocObj(st, "xmldec")
 		c.gset(st, "G:xdpos", o, ts.Int(0))
 		c.gset(st, "G:xddepth", o, ts.Int(0))
@@ -722,5 +731,18 @@ func (c *FnCtx) heapRelIntrinsic(st *State, name string, args []*Term) []*Term {
 		return []*Term{ts.Select(len0, args[0])}
 	}
 	unsupported("heapRelIntrinsic %s", name)
+	return nil
+}
+
+// implementsNamed: the dynamic type of interface value v implements the named interface pkg.Name.
+func (c *FnCtx) implementsNamed(st *State, v *Term, pkgName, name string) *Term {
+	for _, p := range c.eng.ld.Pkg.Imports() {
+		if p.Name() == pkgName {
+			if o := p.Scope().Lookup(name); o != nil {
+				return c.implements(st, v, o.Type())
+			}
+		}
+	}
+	unsupported("interface %s.%s not imported by the package", pkgName, name)
 	return nil
 }
